@@ -316,3 +316,16 @@ Example divmod_example :
 Proof.
   cbn. repeat split; auto; try lia; try (eexists; eexists; split; [reflexivity|lia]); try discriminate.
 Qed.
+
+(* hypotheses of comp_cir_simplified_correct are satisfiable: offset (i - 3) % 4 * stride(w, 0) with i = 1 *)
+Example divmod_cir_example :
+  let rho := fun _ : sym => 1 in
+  let sigma := fun (_ : sym) (_ : Z) => 2 in
+  let k := KBin OMul (KBin OMod (KBin OSub (KRead 1 true) (KConst 3) false) (KConst 4) true) (KStride 2 0) true in
+  klit k /\ ksound rho sigma k /\
+  simplify_cir k = Some k /\
+  comp_cir k = CBin OMul (CFloorMod (CBin OSub (CVar 1) (CConst 3)) (CConst 4)) (CStride 2 0) /\
+  keval rho sigma k = 4.
+Proof.
+  cbn. repeat split; auto; try lia; try discriminate. eexists; split; [reflexivity|lia].
+Qed.
